@@ -167,6 +167,11 @@ impl NumericParser {
 
     pub fn done(&mut self) -> bool {
         let ret = self.subtotal.add(&mut self.tmp) && self.total.add(&mut self.subtotal);
+        if !ret {
+            // the groups do not add up: this is not the problem of a trailing separator,
+            // the part before the separator is not a numeral either
+            return false;
+        }
         if self.has_hanging_point {
             self.error_state = Error::POINT;
             return false;
